@@ -1,6 +1,7 @@
 package sim
 
 import (
+	"encoding/json"
 	"fmt"
 	"sort"
 
@@ -94,7 +95,7 @@ var jsonBodies = []string{`{"a":1}`, `{"a":2,"b":"x"}`, `{"n":{"m":1,"k":"v"}}`,
 var rawBodies = []string{"raw-bytes", "hello world", "\x00\x01binary\xff", "17", "x"}
 var sysXattrs = []string{"_sync", "_x2"}
 var userXattrs = []string{"u1", "u2"}
-var allXattrNames = []string{"_sync", "_x2", "u1", "u2", "_syncx"} // (one name is a prefix of another)
+var allXattrNames = []string{"_sync", "_x2", "u1", "u2", "_syncx", "u&<3"} // (one name is a prefix of another; one needs escaping in JSON)
 
 type gen struct {
 	r        *Rng
@@ -178,6 +179,9 @@ func (g *gen) xattrVal() string {
 	}
 	if g.p.ViewBodies && g.r.Chance(60) {
 		return fmt.Sprintf(`{"r":%d}`, 1+g.r.Intn(9))
+	}
+	if g.p.Name == "C19" && g.r.Chance(35) {
+		return fmt.Sprintf(`%d`, g.r.Intn(10)) // {"u1":7}: an xattrs column of exactly eight bytes
 	}
 	switch g.r.Intn(5) {
 	case 0:
@@ -598,15 +602,19 @@ func (g *gen) op(kind string) Op {
 			op.Handle = g.r.Intn(2) // design documents are replaced and queried through either of two handles
 		}
 	case "Query":
-		kinds := []string{"ids", "idbody", "idge", "num", "str", "xattr", "count", "xnull", "idnum", "veq", "like"}
+		kinds := []string{"ids", "idbody", "idge", "num", "str", "xattr", "count", "xnull", "idnum", "veq", "like", "cols", "xu1"}
 		if !g.p.JSONOnly {
-			kinds = []string{"ids", "idge", "xattr", "count", "xnull", "idnum", "like"} // raw bodies around: only queries that do not parse the body
+			kinds = []string{"ids", "idge", "xattr", "count", "xnull", "idnum", "like", "xu1"} // raw bodies around: only queries that do not parse the body
 		}
 		op.Key = ""
 		op.Path = kinds[g.r.Intn(len(kinds))]
 		switch op.Path {
 		case "idge":
 			op.Body = strp(fmt.Sprintf(`{"k":"k%d"}`, 1+g.r.Intn(4)))
+			if g.r.Chance(40) {
+				kb, _ := json.Marshal(map[string]string{"k": g.keys[g.r.Intn(len(g.keys))]})
+				op.Body = strp(string(kb))
+			}
 		case "num":
 			op.Body = strp(fmt.Sprintf(`{"min":%d}`, g.r.Intn(12)))
 		case "str":
@@ -705,6 +713,15 @@ func GenE1(prop string, seed uint64) *Program {
 	nk := 1 + r.Intn(p.MaxKeys)
 	for i := 0; i < nk; i++ {
 		g.keys = append(g.keys, fmt.Sprintf("k%d", i+1))
+	}
+	// Key shapes: most runs use k1..kN; some use keys that differ in case and punctuation (Unicode
+	// collation of view keys orders them differently from their bytes) or that need escaping when
+	// they are put into JSON, SQL or a LIKE pattern.
+	if sty := r.Intn(8); sty < 2 {
+		styles := [][]string{{"k1", "K2", "k_3", "k-4", "K1", "k 5"}, {"a%b", "it's", `q"x\y`, "é_1", "<k&2>", "k1"}}
+		for i := range g.keys {
+			g.keys[i] = styles[sty][i%len(styles[sty])]
+		}
 	}
 	// swarm: randomly knock out part of the vocabulary for this run
 	w := weights{}
